@@ -1065,8 +1065,8 @@ class C20(fw.Check):
         'tomli (TOML reader), the minimal TOML writer of the harness, MappingProxyType wrappers',
         'CPython import machinery (__import__/fromlist/__all__, sys.modules), C3 linearisation (the MRO of a class statement '
         'is an input of the model; compared with the real __mro__ of every generated class), sorted() on Bank.Path tuples, '
-        'and set iteration order: the model takes the observed iteration order of Bank.paths as an explicit parameter (and '
-        'C20_lookup_order_free proves that it does not matter once Bank.get sorts)',
+        'and set iteration order: Bank.get sorts the set on every iteration and so does the model (C20_lookup_order_free); '
+        'the iteration order observed in the real process is only checked to be a permutation of the model\'s path set',
         'os.fork children of one interpreter per hash seed stand for fresh processes (forml imported, nothing else)',
     ]
     ASSUMPTIONS = ['list elements are scalars (TOML arrays of tables are not generated)',
@@ -1589,6 +1589,22 @@ class C20(fw.Check):
         classes = {(mod, c['name']): (c, abstract) for mod, c, abstract, _ in sc.classes()}
         ancestors = {(mod, c['name']): anc for mod, c, _, anc in sc.classes()}
         search = {'Base': set(sc.base_paths) | set(sc.mid_paths), 'Mid': set(sc.mid_paths)}  # path= seen by each bank
+        # … and the search paths declared by classes that a search of those packages discovers (package __init__ or a
+        # module listed in __all__), transitively: the repaired Bank.get searches them in the same lookup
+        for iname, found_pkgs in search.items():
+            grew = True
+            while grew:
+                grew = False
+                for mod, c, _, anc in sc.classes():
+                    if mod == IFC or not c.get('paths') or (IFC, iname) not in anc:
+                        continue
+                    pkg, _, sub = mod.partition('.')
+                    allv = sc.packages.get(pkg, {}).get('all')
+                    if pkg in found_pkgs and (sub == '' or (allv is not None and sub in allv)):
+                        for q in c['paths']:
+                            if q not in found_pkgs:
+                                found_pkgs.add(q)
+                                grew = True
         by_alias: dict = {}
         for (mod, name), (c, abstract) in classes.items():
             if c.get('alias'):
